@@ -30,6 +30,7 @@ from .expressions import RepeatOnce
 from .expressions import Sequence
 from .expressions import String
 from .rule import MODIFIER_MAP
+from .rule import BuiltInRule
 from .rule import GrammarRule
 from .rule import Rule
 from .tokens import Token
@@ -136,6 +137,16 @@ class Parser:
             rules[identifier.value] = GrammarRule(
                 identifier.value, expression, modifier, rule_doc
             )
+
+        # A grammar rule shadows the built-in rule of the same name, wherever in
+        # the grammar it is defined.
+        if any(name in self.builtins for name in rules):
+            for rule in rules.values():
+                rule.expression = rule.expression.map_bottom_up(
+                    lambda expr: Identifier(expr.name)
+                    if isinstance(expr, BuiltInRule) and expr.name in rules
+                    else expr
+                )
 
         return rules
 
